@@ -1369,6 +1369,9 @@ func checkC14(c *Ctx) {
 	c.Cov("deviations_present_in_tree", codeDev)
 	c.Cov("pinned_reproducers", probeNotes)
 
+	// 2b. histories of several sessions in one directory (auto-load, inputs, auto-save): the last state is what loads back
+	c14RunSessions(c)
+
 	// 3. GEN: the universe with the model's prediction under the code's actual rules
 	scopes := []string{"int", "float", "byte", "str", "scalar", "arr", "map", "pair", "name", "long", "func"}
 	inv := []string{}
@@ -1775,6 +1778,9 @@ func c14SelfTest(c *Ctx, recs []c14TR, verdicts map[string][]string) string {
 // ---------------------------------------------------------------------------------- replay
 
 func replayC14(rp map[string]any) (bool, string) {
+	if rp["check"] == "sessions" {
+		return c14ReplaySessions(rp)
+	}
 	b, _ := json.Marshal(rp["job"])
 	var job c14Job
 	if err := json.Unmarshal(b, &job); err != nil {
